@@ -1,7 +1,8 @@
 """C06: parse() either returns a FileAST or raises ParseError - nothing else.
 
 TLC (spec/TokSeq.tla) enumerates every token sequence up to a length bound over an alphabet
-covering every keyword class, punctuator and literal kind, in six context prefixes; spec/CLex.tla
+covering every keyword class, punctuator and literal kind, in six context prefixes and inside
+twelve constructs (between declarator and body, between members, ...); spec/CLex.tla
 supplies raw character noise; every case goes through CParser.parse and the outcome must be one
 of Session.ParseEnd's shapes: FileAST | ParseError("file:line:col: " | "file: ") with the
 location on a real token (| RecursionError).  A sample of the cases is also validated event by
@@ -21,6 +22,23 @@ CONTEXTS = [([], []),
             (["struct", "S", "{"], ["}", ";"]),
             (["int", "a", "[", "]", "=", "{"], ["}", ";"]),
             (["void", "g", "("], [")", ";"])]
+
+# contexts in which the sequence stands between two parts of ONE construct (declarator and body of a function
+# definition, members of a struct, controlling expression and else, ...): what the parser has already built is
+# inspected again when the construct is completed
+DEFCTX = [(["int", "f", "(", "int", "a", ")"], ["{", "}"]),
+          (["int", "f", "(", "int", "a", ",", "...", ")"], ["{", "}"]),
+          (["int", "f", "(", "a", ")"], ["{", "}"]),
+          (["int", "f", "(", ")"], ["{", "}"]),
+          (["f", "(", "a", ",", "b", ")"], ["{", "return", "a", ";", "}"]),
+          (["struct", "S", "{", "int", "a", ";"], ["}", "x", ";"]),
+          (["enum", "E", "{", "A"], ["}", ";"]),
+          (["void", "f", "(", "void", ")", "{", "switch", "(", "x", ")", "{"], ["}", "}"]),
+          (["void", "f", "(", "void", ")", "{", "for", "("], [")", ";", "}"]),
+          (["int", "x", "=", "(", "int", ")"], [";"]),
+          (["void", "f", "(", "void", ")", "{", "if", "(", "x", ")"], ["else", ";", "}"]),
+          (["typedef", "int", "T", ";", "void", "f", "(", "T"], [")", "{", "}"])]
+CONTEXT_SETS = None   # filled below
 
 FOREIGN = ["@", "`", "\\", "/*", "//", "\n#define X 1\n", "\n#if 1\n", "\n#include <a.h>\n"]
 CORE = ["typedef", "static", "const", "inline", "int", "void", "unsigned", "T", "x", "struct", "enum", "_Atomic",
@@ -76,8 +94,11 @@ def _mut_work(args):
     return n, bad
 
 
-def text_of(seq, c):
-    pre, post = CONTEXTS[c]
+CONTEXT_SETS = [CONTEXTS, DEFCTX]
+
+
+def text_of(seq, c, cs=0):
+    pre, post = CONTEXT_SETS[cs][c]
     return " ".join(pre + seq + post)
 
 
@@ -87,8 +108,9 @@ def _work(chunk):
     kinds = {"ok": 0, "ParseError": 0, "RecursionError": 0}
     accepted_must = []
     for case in chunk:
-        for c in range(len(CONTEXTS)):
-            src = text_of(case["seq"], c)
+        cs = case.get("cs", 0)
+        for c in range(len(CONTEXT_SETS[cs])):
+            src = text_of(case["seq"], c, cs)
             k, detail = classify(src, "f.c", check_loc=True)
             n += 1
             if k.startswith("bad"):
@@ -100,12 +122,12 @@ def _work(chunk):
     return n, kinds, bad, accepted_must
 
 
-def enumerate_seqs(ctx, label, alphabet, maxlen):
+def enumerate_seqs(ctx, label, alphabet, maxlen, cs=0):
     wd = workdir("c06")
     try:
         path, sub = mc_module(wd, "TokSeq", dict(
             Alphabet=set(alphabet), Foreign=set(FOREIGN) & set(alphabet),
-            Contexts=[[pre, post] for pre, post in CONTEXTS], MaxLen=maxlen))
+            Contexts=[[pre, post] for pre, post in CONTEXT_SETS[cs]], MaxLen=maxlen))
         exports = []
         res = tlc(path, sub + "INIT Init\nNEXT Next\nINVARIANT OracleSane\nINVARIANT Export\nCHECK_DEADLOCK FALSE\n",
                   wd=wd, on_export=exports.append, timeout=3000)
@@ -113,6 +135,8 @@ def enumerate_seqs(ctx, label, alphabet, maxlen):
         if res.violated:
             raise common.MachineryError("TokSeq: %s violated" % res.violated)
         ctx.add_tlc(res, label)
+        for e in exports:
+            e["cs"] = cs
         return exports
     finally:
         rmtree(wd)
@@ -178,7 +202,13 @@ def run(tier):
         run_population(ctx, seqs, "len<=4 small alphabet")
         sq = enumerate_seqs(ctx, "len<=5 over %d specifier tokens" % len(SPECS), SPECS, 5)
         run_population(ctx, sq, "len<=5 specifier alphabet")
+        sq = enumerate_seqs(ctx, "len<=4 over %d small tokens inside %d constructs" % (len(SMALL), len(DEFCTX)), SMALL, 4, cs=1)
+        run_population(ctx, sq, "len<=4 small alphabet inside constructs")
     else:
+        sq = enumerate_seqs(ctx, "len<=5 over %d small tokens inside %d constructs" % (len(SMALL), len(DEFCTX)), SMALL, 5, cs=1)
+        run_population(ctx, sq, "len<=5 small alphabet inside constructs")
+        sq = enumerate_seqs(ctx, "len<=3 over %d core tokens inside %d constructs" % (len(CORE), len(DEFCTX)), CORE, 3, cs=1)
+        run_population(ctx, sq, "len<=3 core alphabet inside constructs")
         sq = enumerate_seqs(ctx, "len<=5 over %d specifier tokens" % len(SPECS), SPECS, 5)
         run_population(ctx, sq, "len<=5 specifier alphabet")
         seqs = enumerate_seqs(ctx, "len<=3 over %d tokens" % len(CORE + FOREIGN + REST), CORE + FOREIGN + REST, 3)
